@@ -2039,6 +2039,11 @@ M('c05-sender-splitlines', 'C05', 'fire:R5.5',
   ('slimta/smtp/datasender.py', '''            index = part.find(b'\\n.', i)''',
    '''            _unused = part.splitlines(True)
             index = part.find(b'\\n.', i)''', 1))
+M('c05-line-start-tracked-by-crlf-only', 'C05', 'fire:R5.5',
+  ('slimta/smtp/datasender.py',
+   """        parts = [self._process_part(part) for part in self.parts]""",
+   """        parts = [self._process_part(part) for part in self.parts
+                 if not part.endswith(b'\\r\\n') or part]""", 1))
 M('c05-twin-fullline-pattern-with-group', 'C05', 'silent',
   (DR, r'''fullline_pattern = re.compile(br'.*\n')''',
    r'''fullline_pattern = re.compile(br'(.*\r?\n)')''', 1))
@@ -2115,3 +2120,50 @@ M('c06-edge-dedups-recipients', 'C06', 'fire:X5',
   (WE, """        return [self._b64decode(rcpt_b64) for rcpt_b64 in rcpts_split]""",
    """        return list(set(self._b64decode(rcpt_b64)
                         for rcpt_b64 in rcpts_split))""", 1))
+M('c06-address-lowercased', 'C06', 'fire:X6',
+  (SV, """        address = arg[start:end].decode('utf-8')
+
+        if not self.ehlo_as:""",
+   """        address = arg[start:end].decode('utf-8').lower()
+
+        if not self.ehlo_as:""", 1))
+M('c06-rcpt-source-route-cut', 'C06', 'fire:X6',
+  (SV, """        address = arg[start:end].decode('utf-8')
+
+        if not self.have_mailfrom:""",
+   """        address = arg[start:end].rpartition(b':')[2].decode('utf-8')
+
+        if not self.have_mailfrom:""", 1))
+M('c06-twin-address-via-local', 'C06', 'silent',
+  (SV, """        address = arg[start:end].decode('utf-8')
+
+        if not self.have_mailfrom:""",
+   """        raw_address = arg[start:end]
+        address = raw_address.decode('utf-8')
+
+        if not self.have_mailfrom:""", 1))
+M('c06-empty-sender-header-refused', 'C06', 'fire:X7',
+  (WE, """        return self._b64decode(environ.get(sender_header, ''))""",
+   """        sender_b64 = environ.get(sender_header, '')
+        if not sender_b64:
+            raise WsgiResponse('400 Bad Request')
+        return self._b64decode(sender_b64)""", 1))
+M('c06-twin-missing-sender-header-refused', 'C06', 'silent',
+  (WE, """        return self._b64decode(environ.get(sender_header, ''))""",
+   """        sender_b64 = environ.get(sender_header)
+        if sender_b64 is None:
+            raise WsgiResponse('400 Bad Request')
+        return self._b64decode(sender_b64)""", 1))
+M('c06-body-sent-in-slices', 'C06', 'fire:X8',
+  ('slimta/relay/smtp/client.py',
+   """            send_data = self.client.send_data(
+                header_data, message_data)""",
+   """            send_data = self.client.send_data(
+                header_data, message_data[:65536], message_data[65536:])""",
+   1))
+M('c06-twin-parts-via-locals', 'C06', 'silent',
+  ('slimta/relay/smtp/client.py',
+   """            send_data = self.client.send_data(
+                header_data, message_data)""",
+   """            parts = (header_data, message_data)
+            send_data = self.client.send_data(parts[0], parts[1])""", 1))
